@@ -49,21 +49,46 @@ def _decide(v: Verifier, o: Obl, target: Optional[str]) -> Dict[str, Any]:
     if o.status != "violated":
         return rec
     c = REGISTRY.get(target) if target else None
-    witness = v.concretize(c if c is not None else type("C", (), {"concretize": None})(), o)
-    if witness is not None and c is not None and _faithful(witness, c):
-        try:
-            bad, rmsg = replay_obligation(c, o.name, witness)
-        except BaseException as e:  # noqa
-            bad, rmsg = None, f"replay failed: {type(e).__name__}: {e}"
-        if bad is True:
-            rec["replayed"] = True
-            rec["detail"] = f"{o.detail}; replay on the real code: {rmsg}"
-        elif bad is False:
-            rec["status"] = "undecided"
-            rec["detail"] = f"counter-model refuted by replay on the real code ({rmsg}); encoder imprecision"
-        else:
-            rec["detail"] = f"{o.detail}; {rmsg}"
-    rec["witness"] = _jsonable(witness) if witness is not None else None
+    cc = c if c is not None else type("C", (), {"concretize": None})()
+    witness = v.concretize(cc, o)
+    first_witness = witness
+    refuted, tried = 0, 0
+    models = iter(v.more_models(o)) if c is not None else iter(())
+    while True:
+        if witness is not None and c is not None and _faithful(witness, c):
+            tried += 1
+            try:
+                bad, rmsg = replay_obligation(c, o.name, witness)
+            except BaseException as e:  # noqa
+                bad, rmsg = None, f"replay failed: {type(e).__name__}: {e}"
+            if bad is True:
+                rec["replayed"] = True
+                rec["detail"] = f"{o.detail}; replay on the real code: {rmsg}"
+                rec["witness"] = _jsonable(witness)
+                return rec
+            if bad is False:
+                refuted += 1
+                last_refutation = rmsg
+            else:
+                rec["detail"] = f"{o.detail}; {rmsg}"
+        m = next(models, None)
+        if m is None:
+            break
+        o.model = (o.model[0], m)
+        witness = v.concretize(cc, o)
+    if tried and refuted == tried:
+        if c is not None and not getattr(c.cls, "replay_is_conclusive", True):
+            # the contract mentions uninterpreted callee results: our native realisation of them need not match the
+            # counter-model, so a passing replay refutes nothing - the obligation stays violated, without witness
+            rec["detail"] = (f"{o.detail}; {tried} counter-models were realised natively and the real code satisfied "
+                             f"the contract on each of them (the realisation of the abstract callee results is not "
+                             f"the one of the counter-model)")
+            rec["witness"] = None
+            return rec
+        rec["status"] = "undecided"
+        rec["detail"] = (f"{tried} counter-model(s) refuted by replay on the real code ({last_refutation}); "
+                         f"encoder imprecision")
+    rec["witness"] = _jsonable(first_witness) if first_witness is not None and not tried else None
     return rec
 
 
@@ -98,13 +123,15 @@ def _worker(job) -> Dict[str, Any]:
     target, prop = job
     v = verifier()
     v.second_backend = os.environ.get("VERIF_SECOND_BACKEND", "") == "1"
+    v.crosscheck = os.environ.get("VERIF_CROSSCHECK", "") == "1"
+    v.cross = {"paths_replayed": 0, "agree": 0, "skipped": 0, "disagreements": []}
     v.stats = {k: 0 for k in v.stats}
     v.disagreements = []
     t0 = time.time()
     obls = v.verify(target, only=REGISTRY[target].clauses_for(prop))
     recs = [_decide(v, o, target) for o in obls]
     return {"target": target, "records": recs, "assumed": sorted(getattr(v.ex, "assumed_used", ())),
-            "stats": dict(v.stats), "disagreements": list(v.disagreements),
+            "stats": dict(v.stats), "disagreements": list(v.disagreements), "cross": dict(v.cross),
             "inlined": sorted(v.ex.inlined_seen), "seconds": time.time() - t0,
             "unknown_calls": sorted(getattr(v.ex, "unknown_calls", ()))}
 
@@ -137,6 +164,7 @@ def prove(ctx: Ctx, targets: Sequence[str], kind: str = "P", by_property: bool =
     v = verifier()
     for t in targets:
         _register_function(ctx, v, t, kind)
+    os.environ["VERIF_CROSSCHECK"] = "1"  # CPython cross-check of the symbolic summaries (cheap: every tier)
     if ctx.tier == "thorough":
         os.environ["VERIF_SECOND_BACKEND"] = "1"  # inherited by the forked workers
     for res in _pool_map(_worker, [(t, ctx.prop if by_property else None) for t in targets]):
@@ -146,6 +174,15 @@ def prove(ctx: Ctx, targets: Sequence[str], kind: str = "P", by_property: bool =
         sb["queries"] += st.get("second_backend_queries", 0)
         for k in ("cvc5_unsat", "cvc5_unknown", "cvc5_sat", "z3old_unsat", "z3old_unknown", "z3old_sat"):
             sb[k] += st.get(k, 0)
+        cr = res.get("cross", {})
+        if cr.get("paths_replayed"):
+            ctx.crosscheck["summaries"] += 1
+            ctx.crosscheck["concrete_runs"] += cr["paths_replayed"]
+        for d in cr.get("disagreements", [])[:3]:
+            ctx.crosscheck["disagreements"] += 1
+            ctx.obligation(f"encoder-agrees-with-cpython/{res['target'].split(':')[-1]}", "undecided",
+                           backend="CPython cross-check of the symbolic summary", detail=d)
+            ctx.note(f"ENCODER DISAGREEMENT (checker problem, not a verdict): {d}")
         for d in res.get("disagreements", [])[:3]:
             ctx.obligation(f"backends-agree/{res['target'].split(':')[-1]}", "undecided",
                            backend="cvc5 1.0.3 / z3 4.8.12 via SMT-LIB2", detail=d)
